@@ -198,6 +198,13 @@ func mapSeq[T any](s iter.Seq2[T, error], key func(T) string) iter.Seq2[string, 
 			k := ""
 			if err == nil || !isNilish(v) {
 				k = key(v)
+				// appending to one field of a yielded record (id := append(rec.Name, "/1"...)) writes into that field's
+				// spare capacity: no other field of the record may live there
+				if fillSpare(v) {
+					if k2 := key(v); k2 != k {
+						k += " [FIELDS SHARE MEMORY: after writing into the spare capacity of each slice field the record reads " + k2 + "]"
+					}
+				}
 				scribble(v)
 			}
 			if !yield(k, err) {
@@ -350,4 +357,61 @@ func scribble(v any) {
 			n.Name, n.Distance, n.Children = "#scribbled", -7777, nil
 		}
 	}
+}
+
+// fillSpare writes into the spare capacity (len..cap) of every slice field of
+// a yielded record, leaving the fields' contents alone; reports whether there
+// was any spare capacity to write into.
+func fillSpare(v any) bool {
+	any := false
+	fill := func(b []byte) {
+		sp := b[len(b):cap(b)]
+		for i := range sp {
+			sp[i] = '!'
+			any = true
+		}
+	}
+	fillInts := func(x []int) {
+		sp := x[len(x):cap(x)]
+		for i := range sp {
+			sp[i] = -1111
+			any = true
+		}
+	}
+	samRec := func(x *sam.SAM) {
+		if x == nil {
+			return
+		}
+		for _, val := range x.Tags {
+			switch b := val.(type) {
+			case []byte:
+				fill(b)
+			case []int:
+				fillInts(b)
+			}
+		}
+	}
+	switch x := v.(type) {
+	case *fasta.Fasta:
+		if x != nil {
+			fill(x.Name)
+			fill(x.Sequence)
+		}
+	case *fastq.Fastq:
+		if x != nil {
+			fill(x.Name)
+			fill(x.Sequence)
+			fill(x.Quals)
+		}
+	case *sam.SAM:
+		samRec(x)
+	case sam.SAMOrHeader:
+		samRec(x.S)
+	case *bed.BED:
+		if x != nil {
+			fillInts(x.BlockSizes)
+			fillInts(x.BlockStarts)
+		}
+	}
+	return any
 }
